@@ -1,4 +1,5 @@
 import RustCcModel.Model.Bits
+import RustCcModel.Model.Machine
 /-! # C16 — reference counts saturate with a panic instead of wrapping
 
 All statements are about arbitrary 16-bit words (`< 2^16`); the limits `rcMax`, `weakMax`,
@@ -127,5 +128,29 @@ theorem setAccessible_spec (m : Nat) (v : Bool) (hw : m < 2 ^ 16) :
 /-- Non-vacuity: a word with both flags set and the count one below the limit. -/
 example : rc 65533 = 16381 ∧ finalized 65533 = true ∧ hasMeta 65533 = true ∧
     (incrCounter 65533) = (65534, true) ∧ incrCounter 65534 = (65534, false) := by decide
+
+/-! ### Machine level: at the limit the operation panics and the count is unchanged -/
+open World in
+/-- `Cc::clone` at `MAX`: the machine only starts unwinding; heap, buffer and tables are untouched. -/
+theorem clone_at_max_raises (c : Cfg) (w : World) (self wc : Option Id) (k : Nat) (r : CRef) (x : Id)
+    (hr : w.resolveC self r = some x) (hk : ¬ ((w.getH k).isSome = true ∨ k ≥ w.H.length))
+    (hmax : (w.heap x).rc ≥ c.rcMax) :
+    execOp c w self wc (.clone r k) = w.raise := by
+  have : w.canClone c x = false := by unfold canClone; simp; omega
+  simp [execOp, hr, hk, this]
+
+open World in
+/-- `Weak::upgrade` at `MAX`: same. -/
+theorem upgrade_at_max_raises (c : Cfg) (w : World) (self wc : Option Id) (k i : Nat) (x : Id)
+    (hc : c.weak = true) (hw : w.getW i = some (.to x)) (hk : ¬ ((w.getH k).isSome = true ∨ k ≥ w.H.length))
+    (hs : w.weakStrong (.to x) ≠ 0) (hmax : (w.heap x).rc ≥ c.rcMax) :
+    execOp c w self wc (.up (.w i) k) = w.raise := by
+  have : w.canClone c x = false := by unfold canClone; simp; omega
+  simp [execOp, hc, resolveW, hw, hk, hs, this]
+
+open World in
+/-- A panic keeps every count: `raise` changes only the mode. -/
+theorem raise_changes_nothing (w : World) : w.raise.heap = w.heap ∧ w.raise.metas = w.metas ∧ w.raise.pc = w.pc := by
+  unfold raise; split <;> simp
 
 end RustCc.C16
